@@ -334,6 +334,30 @@ theorem C02.dist_comm (close1 : ℝ → Bool) (s : Space ℝ) (hs : SpacePos s)
     norm_smul_tree close1 s hs he (-1) _ (shaped_sub s y x hy hx)]
   simp
 
+/-- Metric triangle inequality on every space tree (tensor, discretized, nested products; every
+weighting kind; exponents 1, 2, ∞, generic p ≥ 1): `dist(x, z) ≤ dist(x, y) + dist(y, z)`, for
+the code's own dist branches. -/
+theorem C02.dist_triangle (close1 : ℝ → Bool) (s : Space ℝ) (hs : SpacePos s)
+    (he : AllExpo ExpoGe1 s) (x y z : El 𝕜) (hx : Shaped s x) (hy : Shaped s y)
+    (hz : Shaped s z) :
+    Space.dist (ops 𝕜) (roots close1) s x z ≤
+      Space.dist (ops 𝕜) (roots close1) s x y + Space.dist (ops 𝕜) (roots close1) s y z := by
+  rw [C02.dist_eq_norm_sub close1 s x z hx hz, C02.dist_eq_norm_sub close1 s x y hx hy,
+    C02.dist_eq_norm_sub close1 s y z hy hz, sub_eq_add_sub s x y z hx hy hz]
+  exact norm_triangle_tree close1 s hs he _ _ (shaped_sub s x y hx hy) (shaped_sub s y z hy hz)
+
+/-- `dist(x, x) = 0` and `dist(x, y) ≥ 0` on every space tree, every exponent branch. -/
+theorem C02.dist_self_and_nonneg (close1 : ℝ → Bool) (s : Space ℝ) (hs : SpacePos s)
+    (he : AllExpo ExpoPos s) (x y : El 𝕜) (hx : Shaped s x) (hy : Shaped s y) :
+    Space.dist (ops 𝕜) (roots close1) s x x = 0 ∧
+      0 ≤ Space.dist (ops 𝕜) (roots close1) s x y := by
+  constructor
+  · rw [C02.dist_eq_norm_sub close1 s x x hx hx, sub_self_eq_smul_zero s x hx,
+      norm_smul_tree close1 s hs he 0 _ (shaped_sub s x x hx hx)]
+    simp
+  · rw [C02.dist_eq_norm_sub close1 s x y hx hy]
+    exact norm_nonneg_tree close1 s hs he _ (shaped_sub s x y hx hy)
+
 /-- Every norm branch of the model (`sqrt(c)·nrm2`, `c^{1/p}·‖·‖ₚ`, `c·max`, in-place
 `|x|^p·w` sums, boundary scaling by `frac^{1/p}`, norms of component norms) is ONE weighted
 p-norm: of the moduli of the entries with the quadrature weights `twFn w` / `dW` (tensor /
